@@ -39,6 +39,8 @@
      HostCaseFolded          Host value and host pattern are compared after case folding
      PathCaseFolded          path and route pattern are compared after case folding
      EmptyHostIsAbsent       an empty Host value is treated like a missing Host header
+     AbsoluteFormInQuery     a target that contains `://` ANYWHERE (also inside the query: a return URL, an Origin) is
+                             taken for an absolute-form target: scheme and authority are dropped and the rest is routed
      NoSavedTextPos          the matcher before its repair (spec/glob deviation, inherited) *)
 EXTENDS GlobMatch, FiniteSets, TLC
 
@@ -119,7 +121,15 @@ vars == <<app, req, pc, hi, ri, res>>
 M(p, t) == IF "NoSavedTextPos" \in Dev THEN KraussOld(p, t) ELSE Match(p, t)
 
 \* Request parsing splits the target at the first `?` (request.uri); routes are matched against request.uri
-Uri == IF "MatchWithQuery" \in Dev THEN req.target ELSE PathOf(req.target)
+\* Dev AbsoluteFormInQuery: what is left of a target after `scheme://authority` (the first `://` wherever it stands)
+SchemeAt(t) == FirstIdx(Len(t) - 2, LAMBDA i : t[i] = COLON /\ t[i + 1] = "/" /\ t[i + 2] = "/")
+OriginForm(t) == IF Len(t) < 3 \/ SchemeAt(t) = 0 THEN t
+                 ELSE LET rest == SubSeq(t, SchemeAt(t) + 3, Len(t))
+                          sl == FirstIdx(Len(rest), LAMBDA i : rest[i] = "/")
+                      IN IF sl = 0 THEN <<"/">> ELSE SubSeq(rest, sl, Len(rest))
+Uri == IF "MatchWithQuery" \in Dev THEN req.target
+       ELSE IF "AbsoluteFormInQuery" \in Dev THEN PathOf(OriginForm(req.target))
+       ELSE PathOf(req.target)
 HostValue == IF "HostIgnoresPort" \in Dev
              THEN LET c == FirstIdx(Len(req.host), LAMBDA i : req.host[i] = COLON)
                   IN IF c = 0 THEN req.host ELSE SubSeq(req.host, 1, c - 1)
